@@ -3,6 +3,9 @@
 package main
 
 import (
+	"testing/synctest"
+	"strconv"
+	"runtime"
 	"fmt"
 	"os"
 	"sort"
@@ -23,6 +26,7 @@ import (
 // is checked with porcupine (same model as Mode B). All tasks waiting for a lock = deadlock.
 
 type vfYTask struct {
+	child   bool // a goroutine the code under test started itself (first seen at one of its yield points)
 	id      int
 	op      *vfC20Op
 	run     func()
@@ -34,9 +38,24 @@ type vfYTask struct {
 }
 
 type vfYSched struct {
-	mu  sync.Mutex
-	cur *vfYTask
-	on  bool
+	mu    sync.Mutex
+	cur   *vfYTask
+	on    bool
+	byG   map[uint64]*vfYTask
+	spawn func(site string) *vfYTask // registers a child task (called with mu held, on the child's goroutine)
+}
+
+// vfGoid: the id of the calling goroutine (from its stack header); tasks are recognised by goroutine, so that a goroutine
+// the code under test starts on its own becomes a task of its own instead of impersonating its parent.
+func vfGoid() uint64 {
+	var buf [64]byte
+	n := runtime.Stack(buf[:], false)
+	f := strings.Fields(string(buf[:n]))
+	if len(f) < 2 {
+		return 0
+	}
+	id, _ := strconv.ParseUint(f[1], 10, 64)
+	return id
 }
 
 var vfY = &vfYSched{}
@@ -61,11 +80,29 @@ func vfC20AAvailable() bool {
 }
 
 func (s *vfYSched) yield(site string, blocked bool) {
-	t := s.cur
-	if !s.on || t == nil {
+	if !s.on {
+		return
+	}
+	g := vfGoid()
+	s.mu.Lock()
+	t := s.byG[g]
+	fresh := false
+	if t == nil && s.spawn != nil && s.on {
+		t = s.spawn(site)
+		s.byG[g] = t
+		fresh = true
+	}
+	s.mu.Unlock()
+	if t == nil {
 		return
 	}
 	t.blocked = blocked
+	if fresh {
+		// a child parks at its first yield point and waits to be scheduled like everybody else
+		t.site = site
+		<-t.resume
+		return
+	}
 	t.parked <- site
 	<-t.resume
 }
@@ -74,7 +111,7 @@ func vfC20A(w *vfWorld) {
 	t := w.tape
 	cs := &vfC20Case{Flavour: "controlled statement-level interleavings"}
 	w.sample = cs
-	versions := vfC20Versions()
+	versions := vfC20Versions(t.Prob("c20a.bcrypt", 350))
 	htFile := w.writeFile("htpasswd", versions[0].HTText)
 	emFile := w.writeFile("emails.txt", versions[0].EmText)
 	htv, err := basic.NewHTPasswdValidator(htFile)
@@ -91,6 +128,7 @@ func vfC20A(w *vfWorld) {
 	seq := int64(0)
 	curHT := 0 // the htpasswd version a correct implementation has loaded
 	nround := 2 + t.Choice("c20a.rounds", 4)
+	var recent [][2]string
 	steps := 0
 	for round := 0; round < nround; round++ {
 		// a round: 1-2 reloads + 2-4 validations, all started (parked before their first statement)
@@ -135,14 +173,36 @@ func vfC20A(w *vfWorld) {
 			}
 		}
 		sort.Slice(both, func(i, j int) bool { return both[i][0] < both[j][0] })
+		// credentials that are valid in the loaded version and NOT in the incoming one: in flight across the reload they may
+		// answer either way, afterwards they must be refused (whatever an earlier validation found out)
+		var oldOnly [][2]string
+		for _, tk := range tasks {
+			if tk.op.Kind == "reload-ht" && versions[tk.op.Version].HT != nil {
+				for u, pw := range versions[curHT].HT {
+					if versions[tk.op.Version].HT[u] != pw {
+						oldOnly = append(oldOnly, [2]string{u, pw})
+					}
+				}
+			}
+		}
+		sort.Slice(oldOnly, func(i, j int) bool { return oldOnly[i][0] < oldOnly[j][0] })
+		var thisRound [][2]string
 		nval := 2 + t.Choice("c20a.nval", 3)
 		for i := 0; i < nval; i++ {
 			if t.Bool("c20a.which") {
 				op := &vfC20Op{Kind: "validate", User: users[t.Choice("c20a.user", len(users))], Pass: passes[t.Choice("c20a.pass", len(passes))]}
-				if len(both) > 0 && t.Prob("c20a.both", 600) {
+				switch {
+				case len(oldOnly) > 0 && t.Prob("c20a.oldonly", 300):
+					p := oldOnly[t.Choice("c20a.oldpick", len(oldOnly))]
+					op.User, op.Pass = p[0], p[1]
+				case len(recent) > 0 && t.Prob("c20a.echo", 300):
+					p := recent[t.Choice("c20a.echopick", len(recent))] // a credential somebody presented during the previous round
+					op.User, op.Pass = p[0], p[1]
+				case len(both) > 0 && t.Prob("c20a.both", 600):
 					p := both[t.Choice("c20a.bothpick", len(both))]
 					op.User, op.Pass = p[0], p[1]
 				}
+				thisRound = append(thisRound, [2]string{op.User, op.Pass})
 				add(op, func() { op.Result = htv.Validate(op.User, op.Pass) })
 			} else {
 				op := &vfC20Op{Kind: "isvalid", User: users[t.Choice("c20a.user", len(users))] + "@example.com"}
@@ -153,13 +213,27 @@ func vfC20A(w *vfWorld) {
 		for i := range tasks {
 			weights[i] = []int{1, 3, 10, 40}[t.Choice("c20a.speed", 4)]
 		}
-		vfY.on = true
 		started := map[int]bool{}
+		vfY.mu.Lock()
+		vfY.byG = map[uint64]*vfYTask{}
+		vfY.spawn = func(site string) *vfYTask {
+			tk := &vfYTask{child: true, id: len(tasks), op: &vfC20Op{Kind: "child"}, resume: make(chan struct{}), parked: make(chan string)}
+			tasks = append(tasks, tk)
+			weights = append(weights, 10)
+			started[tk.id] = true
+			return tk
+		}
+		vfY.mu.Unlock()
+		vfY.on = true
 		stuck := map[int]bool{} // tasks re-tried since the last progress of anybody and still waiting for a lock
 		cleanup := func() {
 			// let parked tasks run to completion without further yields (a violation was raised mid-round)
 			vfY.on = false
 			for _, tk := range tasks {
+				if tk.child && !tk.done {
+					go func(tk *vfYTask) { tk.resume <- struct{}{} }(tk) // yields are off: it runs to its end
+					continue
+				}
 				if started[tk.id] && !tk.done {
 					go func(tk *vfYTask) {
 						tk.resume <- struct{}{}
@@ -176,7 +250,12 @@ func vfC20A(w *vfWorld) {
 			// runnable = not done and (not blocked, or blocked but worth re-trying because someone else moved)
 			var runnable []*vfYTask
 			allDone, anyUnblocked := true, false
-			for _, tk := range tasks {
+			// goroutines started by the operations come to rest at their first yield point (or finish) before the next choice
+			synctest.Wait()
+			vfY.mu.Lock()
+			snapshot := append([]*vfYTask(nil), tasks...)
+			vfY.mu.Unlock()
+			for _, tk := range snapshot {
 				if !tk.done {
 					allDone = false
 					runnable = append(runnable, tk)
@@ -225,6 +304,9 @@ func vfC20A(w *vfWorld) {
 				w.logf("c20a", "start  #%d %s", tk.id, vfC20OpString(tk.op, versions))
 				go func() {
 					<-tk.resume
+					vfY.mu.Lock()
+					vfY.byG[vfGoid()] = tk
+					vfY.mu.Unlock()
 					tk.run()
 					tk.done = true
 					tk.parked <- ""
@@ -232,14 +314,29 @@ func vfC20A(w *vfWorld) {
 			}
 			tk.blocked = false
 			tk.resume <- struct{}{}
-			site := <-tk.parked
+			var site string
+			if tk.child {
+				// nobody tells when a goroutine of the code under test ends: once everything is at rest it is either parked
+				// at its next yield point or gone
+				synctest.Wait()
+				select {
+				case site = <-tk.parked:
+				default:
+					tk.done = true
+				}
+			} else {
+				site = <-tk.parked
+			}
 			tk.site = site
 			if tk.blocked && !tk.done {
 				stuck[tk.id] = true
 			} else {
 				stuck = map[int]bool{} // progress: everybody waiting for a lock deserves another try
 			}
-			if tk.done {
+			if tk.done && tk.child {
+				seq++
+				w.logf("c20a", "finish #%d (goroutine started by the code under test)", tk.id)
+			} else if tk.done {
 				seq++
 				tk.op.Ret = seq
 				w.logf("c20a", "finish #%d %s => %v", tk.id, tk.op.Kind, tk.op.Result)
@@ -248,8 +345,16 @@ func vfC20A(w *vfWorld) {
 				w.logf("c20a", "step   #%d at %s%s", tk.id, site, map[bool]string{true: " (waiting for lock)", false: ""}[tk.blocked])
 			}
 		}
+		recent = thisRound
 		vfY.on, vfY.cur = false, nil
+		vfY.mu.Lock()
+		vfY.spawn = nil
+		vfY.mu.Unlock()
 		for _, tk := range tasks {
+			if tk.child {
+				cs.Children++
+				continue
+			}
 			history = append(history, tk.op)
 			cs.Ops++
 			if tk.op.Kind == "reload-ht" && versions[tk.op.Version].HT != nil {
